@@ -125,7 +125,7 @@ def proof_gate(pid, tier):
     ok = discharged == len(names) and not hits
     if tier == "thorough" and ok:
         t0 = time.time()
-        mods = ["Deltio.Props." + x for x in stems] + (["Deltio.Gen.LockCheck"] if spec.get("generated") else [])
+        mods = ["Deltio.Props." + x for x in stems] + (["Deltio.Gen." + g[2] for g in spec.get("generated", [])])
         q = sh("timeout 2400 coqchk -silent -o -Q . Deltio %s" % " ".join(mods), cwd=COQ, check=False)
         detail["coqchk"] = {"rc": q.returncode, "tail": q.stdout[-1500:], "wall_s": round(time.time() - t0, 1)}
         if q.returncode != 0:
@@ -185,7 +185,7 @@ def main():
 
     # obligations generated from /repo's sources on this run (translator tie, DESIGN 4a)
     gen_failed = []
-    for gname, gfn in spec.get("generated", []):
+    for gname, gfn, _gfile in spec.get("generated", []):
         try:
             okg, gd = gfn()
         except Exception:
@@ -231,8 +231,8 @@ def main():
                             "coqchk": gdetail.get("coqchk")}))
 
     for gname, gd in gen_failed:
-        violations.append(("proof", "generated obligation %s: theorem %s of Gen/LockCheck.v no longer checks against the "
-                           "sources" % (gname, gd.get("failed")),
+        violations.append(("proof", "generated obligation %s: theorem %s of Gen/%s.v no longer checks against the "
+                           "sources" % (gname, gd.get("failed"), gd.get("check_file", "LockCheck")),
                            {"theorem": gd.get("failed"), "edges": gd.get("edges"), "awaits_under_lock": gd.get("awaits_under_lock"),
                             "unanalysed": gd.get("unanalysed"), "output": gd.get("output"),
                             "signature": "generated:%s:%s" % (gname, gd.get("failed"))}))
